@@ -19,6 +19,14 @@ COMBOS = [
      "if star_power_events[candidate_index].tick_is_during_event(tick):\n                return candidate_index", ["C05"]),
     ("ben7-5.diff", "track.py", r"(?m)^        m\[t\]\.append\(data\)\n        return True", "        return True", ["C14", "C02"]),
     ("ben7-5.diff", "track.py", r"(?m)^    return False$", "    return True", ["C14"]),
+    # a tail call `return self._helper(...)` expanded to the helper's body
+    ("ben13-6.diff", "sync.py", r"for index in range\(first_candidate_index, index_of_last_event\):", "for index in range(first_candidate_index + 1, index_of_last_event):", ["C11", "C01"]),
+    # a pure boolean helper inlined in the middle of a condition
+    ("ben14-6.diff", "instrument.py", r"(?m)^        return not note\.is_chord\(\)$", "        return True", ["C04"]),
+    # a generator whose yield sits in an elif arm, fused into the consuming loop
+    ("ben15-5.diff", "chart.py", r"yield curr_header_tag, curr_first_line_index, i - 1", "yield curr_header_tag, curr_first_line_index, i", ["C06", "C02"]),
+    # constructor reached through a parameter annotated type[C]
+    ("ben15-3.diff", "track.py", r"return bpm_events_type\(events=events, resolution=resolution\)", "return bpm_events_type(events=events[:1] + events[1:], resolution=resolution)", []),
     # a private generator fused into the loop that consumes it
     ("ben6-1.diff", "instrument.py", r"(?m)^            left = right$", "            left = right + 1", ["C02", "C18"]),
     ("ben6-1.diff", "instrument.py", r"datas\[last \+ 1\]\.tick == datas\[last\]\.tick", "datas[last + 1].tick >= datas[last].tick", ["C02"]),
